@@ -511,3 +511,280 @@ func RunTLAPM(module string, timeout time.Duration) (int, string, error) {
 	n, _ := strconv.Atoi(m[1])
 	return n, "", nil
 }
+
+// StreamSim runs TLC in simulation mode (`-simulate file=...`) and hands the states of the
+// generated behaviours to handle: trace files are consumed (and deleted) while TLC is still
+// running, so a long simulation needs no disk. Only states in which one of the variables named
+// in `changed` differs from the previous state of the same behaviour are delivered (stuttering
+// with respect to the vector is skipped); the initial state of every behaviour is delivered
+// when deliverInit is set. NumPerWorker behaviours of at most Depth states are generated by each
+// of Workers simulation workers.
+func (r TLCRun) StreamSim(par int, numPerWorker int, changed []string, deliverInit bool, handle func(State)) (TLCStats, error) {
+	var stats TLCStats
+	start := time.Now()
+	scratch, err := os.MkdirTemp("", "vsim-")
+	if err != nil {
+		return stats, err
+	}
+	defer os.RemoveAll(scratch)
+	specs, _ := filepath.Glob(filepath.Join(VerifDir, "spec", "*.tla"))
+	cfgs, _ := filepath.Glob(filepath.Join(VerifDir, "spec", "*.cfg"))
+	for _, f := range append(specs, cfgs...) {
+		b, err := os.ReadFile(f)
+		if err != nil {
+			return stats, err
+		}
+		if err := os.WriteFile(filepath.Join(scratch, filepath.Base(f)), b, 0o644); err != nil {
+			return stats, err
+		}
+	}
+	cfg := r.Cfg
+	if cfg == "" {
+		cfg = r.Module + ".cfg"
+	}
+	if len(r.Consts) > 0 {
+		b, err := os.ReadFile(filepath.Join(scratch, cfg))
+		if err != nil {
+			return stats, err
+		}
+		var sb strings.Builder
+		sb.Write(b)
+		sb.WriteString("\nCONSTANTS\n")
+		for k, v := range r.Consts {
+			fmt.Fprintf(&sb, "  %s = %s\n", k, v)
+		}
+		cfg = "gen_" + cfg
+		if err := os.WriteFile(filepath.Join(scratch, cfg), []byte(sb.String()), 0o644); err != nil {
+			return stats, err
+		}
+	}
+	workers := r.Workers
+	if workers == 0 {
+		workers = runtime.NumCPU() - 4
+		if workers < 2 {
+			workers = 2
+		}
+	}
+	heap := r.HeapGB
+	if heap == 0 {
+		heap = 8
+	}
+	traceDir := filepath.Join(scratch, "tr")
+	if err := os.Mkdir(traceDir, 0o755); err != nil {
+		return stats, err
+	}
+	args := []string{"-XX:+UseParallelGC", fmt.Sprintf("-Xmx%dg", heap), "-Xss64m", "-cp", tlaJars, "tlc2.TLC",
+		"-workers", strconv.Itoa(workers), "-metadir", filepath.Join(scratch, "meta"), "-nowarning",
+		"-config", cfg, "-simulate", fmt.Sprintf("file=%s,num=%d", filepath.Join(traceDir, "s"), numPerWorker),
+		"-depth", strconv.Itoa(r.Depth), "-seed", strconv.FormatInt(r.Seed, 10)}
+	args = append(args, r.Extra...)
+	args = append(args, r.Module+".tla")
+	cmd := exec.Command("java", args...)
+	cmd.Dir = scratch
+	var outBuf bytes.Buffer
+	cmd.Stdout = &outBuf
+	cmd.Stderr = &outBuf
+	cmd.SysProcAttr = &syscall.SysProcAttr{Setpgid: true}
+	if err := cmd.Start(); err != nil {
+		return stats, err
+	}
+	timeout := r.Timeout
+	if timeout == 0 {
+		timeout = 20 * time.Minute
+	}
+	timedOut := false
+	timer := time.AfterFunc(timeout, func() {
+		timedOut = true
+		syscall.Kill(-cmd.Process.Pid, syscall.SIGKILL)
+	})
+	defer timer.Stop()
+
+	if par <= 0 {
+		par = runtime.NumCPU()
+	}
+	files := make(chan string, 256)
+	var wg sync.WaitGroup
+	var dumped, traces int64
+	var cntMu sync.Mutex
+	var handlerErr error
+	for i := 0; i < par; i++ {
+		wg.Add(1)
+		go func() {
+			defer wg.Done()
+			for f := range files {
+				b, err := os.ReadFile(f)
+				os.Remove(f)
+				if err != nil {
+					continue
+				}
+				blocks := splitSimTrace(string(b))
+				var prev State
+				n := int64(0)
+				for i, blk := range blocks {
+					st, err := ParseState(blk, r.KeepVars)
+					if err != nil {
+						cntMu.Lock()
+						if handlerErr == nil {
+							handlerErr = err
+						}
+						cntMu.Unlock()
+						break
+					}
+					deliver := i > 0 || deliverInit
+					if i > 0 && len(changed) > 0 {
+						deliver = false
+						for _, v := range changed {
+							if rawVar(prev.Raw, v) != rawVar(st.Raw, v) {
+								deliver = true
+							}
+						}
+					}
+					prev = st
+					if deliver {
+						n++
+						handle(st)
+					}
+				}
+				cntMu.Lock()
+				dumped += n
+				traces++
+				cntMu.Unlock()
+			}
+		}()
+	}
+	// the poller: a trace file of a worker is complete once that worker has started a later one
+	done := make(chan struct{})
+	pollDone := make(chan struct{})
+	go func() {
+		defer close(pollDone)
+		sent := map[string]bool{}
+		scan := func(final bool) {
+			ents, _ := os.ReadDir(traceDir)
+			maxOf := map[string]int{}
+			type tf struct {
+				name, w string
+				n       int
+			}
+			var all []tf
+			for _, e := range ents {
+				parts := strings.Split(e.Name(), "_")
+				if len(parts) != 3 {
+					continue
+				}
+				n, err := strconv.Atoi(parts[2])
+				if err != nil {
+					continue
+				}
+				all = append(all, tf{e.Name(), parts[1], n})
+				if m, ok := maxOf[parts[1]]; !ok || n > m {
+					maxOf[parts[1]] = n
+				}
+			}
+			for _, t := range all {
+				if sent[t.name] {
+					continue
+				}
+				if final || t.n < maxOf[t.w] {
+					sent[t.name] = true
+					files <- filepath.Join(traceDir, t.name)
+				}
+			}
+		}
+		for {
+			select {
+			case <-done:
+				scan(true)
+				return
+			case <-time.After(200 * time.Millisecond):
+				scan(false)
+			}
+		}
+	}()
+	werr := cmd.Wait()
+	close(done)
+	<-pollDone
+	close(files)
+	wg.Wait()
+	stats.Wall = time.Since(start)
+	stats.Dumped = dumped
+	out := outBuf.String()
+	if len(out) > 20000 {
+		stats.Output = out[len(out)-20000:]
+	} else {
+		stats.Output = out
+	}
+	if m := regexp.MustCompile(`The number of states generated: (\d+)`).FindStringSubmatch(out); m != nil {
+		stats.Generated, _ = strconv.ParseInt(m[1], 10, 64)
+	}
+	stats.Distinct = traces // number of behaviours
+	switch {
+	case timedOut:
+		stats.ErrorKind = "timeout"
+	case strings.Contains(out, "Invariant ") && strings.Contains(out, " is violated"):
+		stats.ErrorKind = "invariant"
+	case strings.Contains(out, "Action property") && strings.Contains(out, "is violated"):
+		stats.ErrorKind = "property"
+	case strings.Contains(out, "Error:") || (werr != nil && !strings.Contains(out, "The number of states generated")):
+		stats.ErrorKind = "error"
+	}
+	if stats.ErrorKind != "" {
+		if idx := strings.Index(out, "Error:"); idx >= 0 {
+			e := out[idx:]
+			if len(e) > 3000 {
+				e = e[:3000]
+			}
+			stats.ErrorMsg = e
+		} else {
+			stats.ErrorMsg = tail(out, 1500)
+		}
+	}
+	if handlerErr != nil {
+		return stats, fmt.Errorf("simulation trace parse: %w", handlerErr)
+	}
+	if stats.ErrorKind == "timeout" {
+		return stats, fmt.Errorf("TLC simulation timed out after %v", timeout)
+	}
+	if stats.ErrorKind == "error" {
+		return stats, fmt.Errorf("TLC simulation failed: %s", stats.ErrorMsg)
+	}
+	return stats, nil
+}
+
+var reSimState = regexp.MustCompile(`(?m)^STATE_\d+ ==\s*$`)
+
+// splitSimTrace splits a behaviour file written by `-simulate file=` into its state blocks.
+func splitSimTrace(s string) []string {
+	idx := reSimState.FindAllStringIndex(s, -1)
+	var out []string
+	for i, m := range idx {
+		end := len(s)
+		if i+1 < len(idx) {
+			end = idx[i+1][0]
+		}
+		blk := s[m[1]:end]
+		// drop the trailing action-location comment of the next state and the module footer
+		var keep []string
+		for _, ln := range strings.Split(blk, "\n") {
+			if strings.HasPrefix(ln, "\\*") || strings.HasPrefix(ln, "====") {
+				continue
+			}
+			keep = append(keep, ln)
+		}
+		out = append(out, strings.Join(keep, "\n"))
+	}
+	return out
+}
+
+// rawVar returns the raw text of one variable's conjunct in a state block.
+func rawVar(raw, name string) string {
+	pfx := "/\\ " + name + " = "
+	i := strings.Index(raw, pfx)
+	if i < 0 {
+		return ""
+	}
+	rest := raw[i+len(pfx):]
+	if j := strings.Index(rest, "\n/\\ "); j >= 0 {
+		rest = rest[:j]
+	}
+	return rest
+}
